@@ -229,19 +229,25 @@ def p_req(F, R):
             # disambiguate repeated keys by the enclosing arm
             arm = enclosing_arm_label(f, c)
             key = "%s@%s" % (key, arm)
+            definite = lambda x: x in ("+", "-", "exact") or (isinstance(x, tuple) and x[0] in ("scale", "const"))
+            und = False
             if sr == "exact":
                 ok, why = True, "Exact is sound in every context"
             elif isinstance(sr, tuple) and sr[0] == "table":
-                ok, why = table_local_ok(F, f, sr[2]), "requirement comes from the local table `%s` (checked by T-CONVEX/T-OBJ)" % sr[1]
+                ok = table_local_ok(F, f, sr[2])
+                und = not ok     # the requirement is computed somewhere this rule does not follow (a helper, a closure)
+                why = "requirement comes from the local `%s`, which is not a match table this rule can read" % sr[1]
             elif sg == "dropped":
                 ok, why = True, "value discarded"
             elif sg == "exactuse":
                 ok, why = False, "the linearised value is used on both sides / in emitted rows, which needs ValueRequirement::Exact"
+                und = not definite(sr)
             else:
                 ok = (sr == sg)
+                und = not (definite(sr) and definite(sg))
                 why = "value enters the result with sign %s, requirement is propagated with %s" % (sg, sr)
             R.ob("P-REQ", key, ok, F.loc(f, c),
-                 "requirement polarity: %s (a dropped .reversed() under Sub/Neg/negative scale turns a relaxation the wrong way: feasible points are cut off or infeasible ones let in)" % why)
+                 "requirement polarity: %s (a dropped .reversed() under Sub/Neg/negative scale turns a relaxation the wrong way: feasible points are cut off or infeasible ones let in)" % why, undecided=und and not ok)
     # helper entry points: requirement passed through unchanged, Exact for logic operands
     for f in F.fn_list:
         if "body" not in f or not f.get("file", "").endswith(LIN_FILE):
@@ -387,7 +393,9 @@ def t_convex(F, R):
                     got = h[1].rsplit("::", 1)[-1] if h and h[0] == "variant" else None
                     R.ob("T-OBJ", v, got in want[v], where, "objective direction %s linearises the objective under %s, expected one of %s" % (v, got, want[v]))
     for k, n in found.items():
-        R.ob("T-CONVEX" if k != "objective" else "T-OBJ", "table-present:" + k, n == 1, "packages/rooc/src/transformers/linearizer.rs", "expected exactly one `%s` table, found %d" % (k, n))
+        # a table that is no longer a `match` of the expected scrutinee type (rewritten as matches!/==, moved into a helper) is
+        # not evidence of anything: T-NUM-TEMPLATES and COMPILE-EQUIV decide the same choices by evaluation
+        R.ob("T-CONVEX" if k != "objective" else "T-OBJ", "table-present:" + k, n == 1, "packages/rooc/src/transformers/linearizer.rs", "expected exactly one `%s` table, found %d" % (k, n), undecided=True)
 
 
 # ---- P-BIGM -----------------------------------------------------------------------------
